@@ -141,14 +141,14 @@ theorem todoSteps_complete (e : Env) (lh : Int) (A B : List Nat) :
       | cons b2 r2 => exact List.mem_cons_of_mem _ (ih _ x (by simp) h)
 
 /-- an element of the re-admission part is the re-admission loop over a non-empty prefix of the old pool -/
-theorem mem_readmitSteps (e : Env) (lh : Int) (l : List Nat) :
-    ∀ st x, x ∈ readmitSteps e lh l st →
+theorem mem_repostSteps (e : Env) (lh : Int) (l : List Nat) :
+    ∀ st x, x ∈ repostSteps e lh l st →
       ∃ A B, l = A ++ B ∧ A ≠ [] ∧ x = A.foldl (fun st i => (doTx e st lh i).1) st := by
   induction l with
-  | nil => intro st x hx; simp [readmitSteps] at hx
+  | nil => intro st x hx; simp [repostSteps] at hx
   | cons i rest ih =>
     intro st x hx
-    unfold readmitSteps at hx
+    unfold repostSteps at hx
     by_cases hc : (doTx e st lh i).2 = .ok
     · rw [if_pos hc] at hx
       rcases List.mem_cons.mp hx with rfl | hx
@@ -239,11 +239,11 @@ theorem mem_walkMid (e : Env) (s : St) (lh : Int) (dest : Nat) (prune : Bool) (x
         exact ⟨_, A, B, by rw [← h1], a1, a2, a3⟩
 
 /-- the elements of the re-admission part of the trace -/
-theorem mem_walkReadmit (e : Env) (s : St) (lh : Int) (dest : Nat) (prune : Bool) (x : St)
-    (hx : x ∈ walkReadmit e s lh dest prune) :
+theorem mem_walkRepost (e : Env) (s : St) (lh : Int) (dest : Nat) (prune : Bool) (x : St)
+    (hx : x ∈ walkRepost e s lh dest prune) :
     (walkCore e s lh dest prune).2 = true ∧
     ∃ A B, s.pool = A ++ B ∧ A ≠ [] ∧ x = A.foldl (fun st i => (doTx e st lh i).1) (walkCore e s lh dest prune).1 := by
-  unfold walkReadmit at hx
+  unfold walkRepost at hx
   unfold walkCore
   simp only at hx ⊢
   cases h1 : (walk.undoAll e prune (undoTodo e s.pointer dest).1 (rolledBack e s)).2 with
@@ -258,6 +258,6 @@ theorem mem_walkReadmit (e : Env) (s : St) (lh : Int) (dest : Nat) (prune : Bool
     | true =>
       rw [h2] at hx
       simp only [↓reduceIte] at hx
-      exact ⟨rfl, mem_readmitSteps e lh _ _ x hx⟩
+      exact ⟨rfl, mem_repostSteps e lh _ _ x hx⟩
 
 end XV.Crash
